@@ -39,6 +39,7 @@ var TrustedDoc = map[string]string{
 	"slices.Sort":           "in place; length kept; mem preserved; sortedness is NOT assumed",
 	"slices.Compact":        "len' <= len; len' = 0 iff len = 0; mem(s',x) = mem(s,x) for every x",
 	"slices.Contains":       "result = mem(s, x)",
+	"slices.Clone":          "a new backing array holding the same elements (shallow copy)",
 	"slices.Index":          "result = -1 and not mem(s,x), or 0 <= result < len and s[result] = x and no earlier index holds x",
 	"slices.Delete":         "requires 0 <= i <= j <= len; result = s[:i] ++ s[j:]",
  	"strings.Split(s, \"\")": "every element is non-empty; an element starting with a byte < 0x80 has length 1",
@@ -106,6 +107,10 @@ func (ex *Exec) libCall(st *State, fn *ssa.Function, args []Val, pos string) []O
 		st.Assume(smt.And(smt.Le("0", nl), smt.Le(nl, s.Len), smt.Eq(smt.Eq(nl, "0"), smt.Eq(s.Len, "0"))))
 		st.Assume(smt.Forall([][2]string{{x, es}}, smt.Eq(ex.Mem(ns, x), ex.Mem(s, x)), ex.Mem(ns, x)))
 		return ret1(st, ns)
+	case "slices.Clone":
+		ex.trust(name)
+		s := args[0].(Slice)
+		return ret1(st, Slice{Arr: s.Arr, Len: s.Len, Elem: s.Elem, B: ex.newBacking()})
 	case "slices.Contains":
 		ex.trust(name)
 		s := args[0].(Slice)
